@@ -171,6 +171,12 @@ func Gen(t *rapid.T) Case {
 		}
 	}
 	c.Method = rapid.SampledFrom(methods).Draw(t, "method")
+	if rapid.IntRange(0, 2).Draw(t, "sibling-operation") == 0 {
+		c.Sibling = genConsumes(t)
+		if c.Sibling == nil {
+			c.Sibling = []string{"*/*"}
+		}
+	}
 	c.Reqs = rapid.SliceOfN(rapid.Custom(func(t *rapid.T) Req {
 		var q Req
 		has, ct := genHeader(t, c)
@@ -183,6 +189,7 @@ func Gen(t *rapid.T) Case {
 		if (q.Body == "wire-cl" || q.Body == "wire-cl0") && rapid.IntRange(0, 2).Draw(t, "padded-length") == 0 {
 			q.ZeroPad = rapid.IntRange(1, 3).Draw(t, "zero-pad")
 		}
+		q.ViaSibling = c.Sibling != nil && rapid.Bool().Draw(t, "sent-to-the-sibling-first")
 		if rapid.IntRange(0, 2).Draw(t, "with-accept") == 0 {
 			q.Accept = rapid.SampledFrom(acceptValues).Draw(t, "accept")
 		}
@@ -228,6 +235,13 @@ func Classify(c Case) (bool, []string) {
 		labels = append(labels, "body:"+q.Body)
 		if q.ZeroPad > 0 {
 			labels = append(labels, "content-length:leading-zeros")
+		}
+		if q.ViaSibling && c.Sibling != nil {
+			labels = append(labels, "sent to the sibling operation of the path first")
+			sv := Judge(c.Sibling, c.Default, q.carriesBody(), hdr)
+			if sv.Gate && !sv.ParseErr && sv.Admit != "no" && v.Gate && !v.ParseErr && v.Admit == "no" {
+				labels = append(labels, "the sibling operation admits the media type, the judged one does not")
+			}
 		}
 		if q.unsatisfiableAccept() {
 			if v.Gate && (v.ParseErr || v.Admit == "no") {
@@ -283,7 +297,7 @@ func Classify(c Case) (bool, []string) {
 
 const ruleText = "consumes list of 0-4 lower-case entries (concrete, type/*, */*, entries with parameters; not declared / empty; operation or global) x API default media type x registered consumers; " +
 	"1-12 requests: Content-Type from a grammar (entry/registered/other type, case, parameters, blanks, verbatim, absent, malformed table, raw header-safe bytes) x body by Content-Length / chunked / none / zero / in-process variants x 7 methods; " +
-	"both entry points (BindAndValidate behind APIHandler, BindValidRequest with a recording binder) on the same request; non-trivial: body present and header not byte-equal to a list entry"
+	"optionally a sibling operation on the same path (other method, own consumes list) that requests are sent to first, unjudged; both entry points (BindAndValidate behind APIHandler, BindValidRequest with a recording binder) on the same request; non-trivial: body present and header not byte-equal to a list entry"
 
 func Props() []kit.Runner {
 	return []kit.Runner{
